@@ -260,7 +260,7 @@ def scenario_traces(name: str, steps: int, seed: int) -> List[Dict[str, Any]]:
     return out
 
 
-def tour_traces(facet: str, seed: int, chk) -> List[Dict[str, Any]]:
+def tour_traces(facet: str, seed: int, chk, level: str = "coarse") -> List[Dict[str, Any]]:
     """Transition tour of spec/Lifecycle.tla (every operation at every reachable power x component state) through the
     environment, every software item and folder of the target node followed by a Track."""
     from primaite.session.environment import PrimaiteGymEnv
@@ -268,7 +268,7 @@ def tour_traces(facet: str, seed: int, chk) -> List[Dict[str, Any]]:
     from . import tour
 
     g = tour.graph(facet)
-    eps, st = tour.tour(g, random.Random(seed), episode_len=300)
+    eps, st = tour.tour(g, random.Random(seed), episode_len=300, level=level)
     chk.add_mc(f"Lifecycle({facet})", g["tlc"])
     chk.cov[f"tour_{facet}"] = st
     cfg, idx = tour.scenario(facet)
@@ -277,7 +277,7 @@ def tour_traces(facet: str, seed: int, chk) -> List[Dict[str, Any]]:
     env = PrimaiteGymEnv(env_config=cfg)
     out: List[Dict[str, Any]] = []
     tnode = tour.TARGET[facet][0]
-    follow = {"svc": ("database-service", "web-server"), "app": ("web-browser", "database-client")}[facet]
+    follow = {"svc": ("dns-server", "database-service", "web-server"), "app": ("web-browser", "database-client")}[facet]
     for ei, ep in enumerate(eps):
         REC.detach_all()
         env.reset(seed=seed + ei)
@@ -497,7 +497,7 @@ def main(tier: str, seed: int) -> int:
     for name, steps, sd in runs:
         straces += scenario_traces(name, steps, sd)
     for facet in ("svc", "app"):
-        straces += tour_traces(facet, seed, chk)
+        straces += tour_traces(facet, seed, chk, "coarse" if quick else "exact")
     sres = tlc.validate("HealthTrace", straces, chunk=40)
     common.judge_traces(chk, "Health", straces, sres, sig_fn, label="scenario")
     # ---- evidence ---------------------------------------------------------------------------------------
